@@ -102,7 +102,7 @@ def prepare(lay, cfg):
             os.makedirs(os.path.join(lay.platform, "env"))
             with open(os.path.join(lay.platform, "env", "FOO"), "w") as f:
                 f.write("bar")
-    is_build = cfg["name"] == "build"
+    is_build = cfg["name"] == "build" or (cfg["name"] not in ("detect", "build") and cfg.get("build_shaped_args"))      # (whatever the call looks like it is meant to be)
     if is_build:
         if cfg["platform"] == "plan-malformed":
             with open(lay.plan, "w") as f:
@@ -167,7 +167,8 @@ def cell(cfg):
 
 def run_cfg(lay, cfg, idx, seed, sh):
     r = vp.rng(seed, "c05", idx)
-    cfg = dict(cfg, real_build_file=cfg.get("real_build_file", idx % 3 == 1))
+    rr = vp.rng(seed, "c05-layout", idx)       # (independent of the position in the product: index arithmetic would tie these to the other factors)
+    cfg = dict(cfg, real_build_file=cfg.get("real_build_file", rr.random() < 0.4), build_shaped_args=cfg.get("build_shaped_args", rr.random() < 0.5))
     prepare(lay, cfg)
     script = make_script(cfg, r, lay)
     b0 = script.get("build")
@@ -189,7 +190,8 @@ def run_cfg(lay, cfg, idx, seed, sh):
     if idx % 3 != 0:
         # newer lifecycles also export the locations as variables; the positional arguments stay mandatory for this API version
         env.update({"CNB_PLATFORM_DIR": lay.platform, "CNB_BUILD_PLAN_PATH": lay.plan, "CNB_LAYERS_DIR": lay.layers, "CNB_BP_PLAN_PATH": lay.plan})
-    base_args = lay.build_args() if cfg["name"] == "build" else lay.detect_args()
+    # (a wrongly named executable gets the arguments of either phase: whatever else would make the call plausible, the name decides)
+    base_args = lay.build_args() if cfg["name"] == "build" or (cfg["name"] not in ("detect", "build") and cfg["build_shaped_args"]) else lay.detect_args()
     args = (base_args + ["extra1", "extra2"])[:cfg["argc"]]
     if cfg.get("raw_path"):
         # a path argument that is not valid UTF-8 (legal on Linux): the plan path for detect, the layers dir for build
